@@ -96,6 +96,14 @@ def grid_reshape(mmax, dmax, quick):
                     extra.append(dict(m=m, src=tuple(map(tuple, s1)), tgt=tuple(map(tuple, tgt))))
                     extra.append(dict(m=m, src=tuple(map(tuple, tgt)), tgt=tuple(map(tuple, s1))))
     out += [e for e in extra if len(e['src']) <= dmax + 1 and len(e['tgt']) <= dmax + 1]
+    # several consecutive singleton modes that disappear / appear
+    for ones in (2, 3):
+        e1 = ((),) * ones
+        out.append(dict(m=1, src=((0,),) + e1, tgt=((0,),)))
+        out.append(dict(m=2, src=((0,), (1,)) + e1, tgt=((0, 1),)))
+        out.append(dict(m=2, src=e1 + ((0,), (1,)), tgt=((0, 1),)))
+        out.append(dict(m=2, src=((0,),) + e1 + ((1,),), tgt=((0, 1),)))
+        out.append(dict(m=1, src=((0,),), tgt=((0,),) + e1))
     if quick:
         out = [g for g in out if g['m'] <= 3]
     seen, res = set(), []
@@ -142,6 +150,15 @@ def grid_reshape_ttm(quick):
     out.append(dict(m=1, src=((0,),), tgt=((0,), ())))
     out.append(dict(m=1, src=((0,), ()), tgt=((0,),)))
     out.append(dict(m=2, src=((0,), (1,), ()), tgt=((0, 1),)))
+    # several consecutive singleton (1,1) modes that disappear / appear: at the end, at the front, in the middle
+    for ones in (2, 3):
+        e = ((),) * ones
+        out.append(dict(m=1, src=((0,),) + e, tgt=((0,),)))
+        out.append(dict(m=2, src=((0,), (1,)) + e, tgt=((0, 1),)))
+        out.append(dict(m=2, src=((0,), (1,)) + e, tgt=((0,), (1,))))
+        out.append(dict(m=2, src=e + ((0,), (1,)), tgt=((0, 1),)))
+        out.append(dict(m=2, src=((0,),) + e + ((1,),), tgt=((0, 1),)))
+        out.append(dict(m=1, src=((0,),), tgt=((0,),) + e))
     return out
 
 
